@@ -742,6 +742,8 @@ class Engine:
         if self.is_np(a, st) or self.is_np(b, st):
             return self.elementwise2(lambda x, y: self.binop(op, x, y, st, node), a, b, st, node)
         # list algebra
+        if isinstance(op, ast.Add) and ((isinstance(a, VFn) and self.is_seq(b, st)) or (isinstance(b, VFn) and self.is_seq(a, st))):
+            return VFn(z3.Const(fresh_name("opq"), Fn))
         if self.is_seq(a, st) and self.is_seq(b, st) and isinstance(op, ast.Add):
             oa, ob = st.heap[a.addr], st.heap[b.addr]
             la, ga, gb = oa.len, oa.get, ob.get
@@ -808,6 +810,9 @@ class Engine:
                 if isinstance(b, VInt) and z3.is_int_value(b.t) and b.t.as_long() == 2:
                     return fmul(x, x)
                 return self.fpow(x, y, st, node)
+        if isinstance(op, ast.Add) and (isinstance(a, VFn) or isinstance(b, VFn)) and (isinstance(a, (VFn, VRef)) and isinstance(b, (VFn, VRef))):
+            # list + opaque sequence (e.g. [x] + list(sympy.symbols(...))): an opaque object; only ever handed to opaque calls
+            return VFn(z3.Const(fresh_name("opq"), Fn))
         if isinstance(a, VStr) and isinstance(b, VStr) and isinstance(op, ast.Add):
             return VStr(a.s + b.s)
         if isinstance(op, ast.Add) and isinstance(a, (VStr, VLabel)) and isinstance(b, (VStr, VLabel)):
@@ -1242,7 +1247,7 @@ class Engine:
             la, ga, gb = oa.len, oa.get, ob.get
             st.heap[cur.addr] = HSeq(oa.len + ob.len, lambda k: ite(k < la, ga(k), gb(k - la)), etype=oa.etype)
             return fin()
-        if self.is_np(cur, st):
+        if self.is_np(cur, st) and isinstance(node.target, ast.Name):
             # in place on the array object (aliases see it)
             res = self.binop(node.op, cur, v, st, node)
             st.heap[cur.addr] = st.heap[res.addr]
